@@ -104,3 +104,52 @@ func lemma_C02_mac_before_decrypt_initiator(integSel, encrSel uint8, ai, ar, ei,
 func lemma_C02_mac_before_decrypt_responder(integSel, encrSel uint8, ai, ar, ei, er []byte, msg, skBody []byte, next uint8, junk []byte) {
 	verifC02Mac(bool(message.Role_Responder), integSel, encrSel, ai, ar, ei, er, msg, skBody, next, junk)
 }
+
+// the same at the public entry point: a datagram presenting one SK payload (any body,
+// any header fields - in particular any flags), header pre-parsed or not.  The key
+// direction is fixed by the receiver's role alone.
+//
+//verif:bounded datagram of exactly one SK payload
+//verif:bytes
+//verif:maxlen skBody=60000
+//verif:unroll (*message.IKEPayloadContainer).Decode#loop1 2 assert
+//verif:unroll ike.decryptMsg#loop1 2 assert
+func lemma_C02_entry_point(role, withHeader bool, integSel, encrSel uint8, ai, ar, ei, er []byte, ispi, rspi uint64, exch, flags uint8, mid uint32, next uint8, skBody, junk []byte) {
+	verifAssume(len(skBody) <= 60000)
+	sa := verifSA(integSel, encrSel, ai, ar, ei, er)
+	sa.Integ_i.Write(junk)
+	sa.Integ_r.Write(junk)
+	spyI, spyR := new(verifSpy), new(verifSpy)
+	sa.Encr_i, sa.Encr_r = spyI, spyR
+	kaPeer := ai
+	if message.Role(role) == message.Role_Initiator {
+		kaPeer = ar
+	}
+	kaPeer = append([]byte{}, kaPeer...)
+	n := 28 + 4 + len(skBody)
+	dgram := make([]byte, n)
+	dgram[0], dgram[1], dgram[2], dgram[3], dgram[4], dgram[5], dgram[6], dgram[7] = byte(ispi>>56), byte(ispi>>48), byte(ispi>>40), byte(ispi>>32), byte(ispi>>24), byte(ispi>>16), byte(ispi>>8), byte(ispi)
+	dgram[8], dgram[9], dgram[10], dgram[11], dgram[12], dgram[13], dgram[14], dgram[15] = byte(rspi>>56), byte(rspi>>48), byte(rspi>>40), byte(rspi>>32), byte(rspi>>24), byte(rspi>>16), byte(rspi>>8), byte(rspi)
+	dgram[16], dgram[17], dgram[18], dgram[19] = 46, 0x20, exch, flags
+	dgram[20], dgram[21], dgram[22], dgram[23] = byte(mid>>24), byte(mid>>16), byte(mid>>8), byte(mid)
+	dgram[24], dgram[25], dgram[26], dgram[27] = byte(n>>24), byte(n>>16), byte(n>>8), byte(n)
+	dgram[28], dgram[29], dgram[30], dgram[31] = next, 0, byte((n-28)>>8), byte(n-28)
+	copy(dgram[32:], skBody)
+	d0 := append([]byte{}, dgram...)
+	var h *message.IKEHeader
+	if withHeader {
+		h, _ = message.ParseHeader(dgram)
+	}
+	_, _ = DecodeDecrypt(dgram, h, sa, message.Role(role))
+	if spyI.decrypts+spyR.decrypts == 0 {
+		return
+	}
+	_, icv := verifIntegRef(integSel)
+	verifAssert(len(skBody) >= icv, "C02/entry/enough-octets-for-a-checksum-before-any-cipher-call")
+	verifAssert(verifBytesEq(d0[n-icv:], verifRefTag(integSel, kaPeer, d0[:n-icv])), "C02/entry/cipher-called-only-after-the-hmac-under-the-receivers-peer-key-matched")
+	if message.Role(role) == message.Role_Initiator {
+		verifAssert(spyR.decrypts == 1 && spyI.decrypts == 0, "C02/entry/the-receivers-role-alone-selects-the-cipher")
+	} else {
+		verifAssert(spyI.decrypts == 1 && spyR.decrypts == 0, "C02/entry/the-receivers-role-alone-selects-the-cipher")
+	}
+}
